@@ -366,3 +366,88 @@ def interface_reader_positions(fb, res, rid, prefix=""):
         res.check(bad is None, rid, "%sInterfacePayload::%s:position" % (prefix, nm), g.loc, "%s() = %s on every path, for every count" % (nm, fmt(exp)),
                   "InterfacePayload::%s: %s — what setData stored there is read back from somewhere else" % (nm, bad))
     return n
+
+
+def interface_builder_size(fb, res, rid, prefix=""):
+    """The builder's side of the same format: InterfacePayload::setData sizes the payload to sizeof(Header) + 2 + N + (N mod 2) + 2 + V for
+    every id count N and vendor length V, on every path (its writes tile that buffer in format order: C13-R3) — so the pad byte exists
+    exactly when N is odd, whatever else is or is not stored behind it."""
+    cls = NS + "InterfacePayload"
+    from cmpverif.accessors import header_view_record
+    H = fb.record(header_view_record(fb, cls))["size"]
+    gs = [g for g in fb.fns(cls + "::setData") if len(g.params) == 4 and g.body]
+    if len(gs) != 1:
+        raise Broken("InterfacePayload::setData(ids, count, vendor data, length) not found")
+    g = gs[0]
+    ev = ReaderEval(fb, cls, H)
+    env = {g.params[0]["decl"]: {"P0": 1}, g.params[1]["decl"]: {"N": 1}, g.params[2]["decl"]: {"P2": 1}, g.params[3]["decl"]: {"V": 1}}
+    sizes = []
+
+    def visit(s, states, depth=0):
+        """statements in order; whatever is not a declaration, a branch or an assignment of a tracked local is skipped"""
+        k = s.get("k")
+        if k == "compound":
+            for x in s.get("body", []):
+                states = visit(x, states, depth)
+            return states
+        out = []
+        for en, pn in states:
+            try:
+                if k in ("decl", "if"):
+                    if k == "if":
+                        for pol, pn2 in ev.branch(s["cond"], en, pn, g, 0):
+                            st = [(dict(en), pn2)]
+                            if pol:
+                                st = visit(s["then"], st, depth + 1)
+                            elif "else" in s:
+                                st = visit(s["else"], st, depth + 1)
+                            out.extend(st)
+                    else:
+                        try:
+                            for e2, p2, _ in ev.run(s, [[dict(en), pn, None]], g, 0):
+                                out.append((e2, p2))
+                        except Outside:
+                            # a local this computation does not understand (a byte-swapped copy, a pointer into the buffer): an opaque value
+                            e2 = dict(en)
+                            for v in s.get("vars", []):
+                                if "decl" in v:
+                                    e2[v["decl"]] = {"?" + v["decl"]: 1}
+                            out.append((e2, pn))
+                    continue
+                c = strip_all_casts(s)
+                if c.get("k") == "call" and (c.get("callee") or {}).get("nm") == "resize" and fb.is_payload_buffer(c.get("obj", {})) and c.get("args"):
+                    for f, p2 in ev.ev(c["args"][0], en, pn, g, 0):
+                        sizes.append((f, p2, c))
+                        out.append((en, p2))
+                    continue
+                if c.get("k") in ("assign", "cassign") or (c.get("k") == "un" and c.get("op") in ("pre++", "post++", "pre--", "post--")):
+                    t = strip_all_casts(c.get("l") or c.get("e") or {})
+                    if t.get("k") == "ref" and t.get("decl") in en and (t.get("t") or {}).get("k") == "int":
+                        e2 = dict(en)
+                        try:
+                            for _, p2 in ev.ev(c, e2, pn, g, 0):
+                                out.append((e2, p2))
+                        except Outside:
+                            e2 = dict(en)
+                            e2[t["decl"]] = {"?%s@%s" % (t["decl"], c.get("id")): 1}
+                            out.append((e2, pn))
+                        continue
+                out.append((en, pn))
+            except Outside as e:
+                raise Broken("InterfacePayload::setData: size computation outside the vocabulary: %s" % e)
+        return out
+    visit(g.body, [(env, {})])
+    if not sizes:
+        raise Broken("InterfacePayload::setData does not resize the payload buffer")
+    want = {"N": 1, "PAR(N)": 1, "V": 1, 1: H + 4}
+    bad = None
+    for f, pins, c in sizes:
+        f2, w2 = apply_pins(f, pins), apply_pins(want, pins)
+        if _clean(f2) != _clean(w2):
+            cond = ", ".join("%s %s" % (k2[1], ("== 0" if v else "!= 0") if k2[0] == "ZERO" else ("odd" if v else "even")) for k2, v in sorted(pins.items(), key=str))
+            bad = bad or "with %s it sizes the payload to %s, the format needs %s (N ids, V vendor bytes, one pad byte exactly when N is odd)" % (
+                cond or "no condition", fmt(f2), fmt(w2))
+    res.check(bad is None, rid, "%sInterfacePayload::setData:format-size" % prefix, g.loc,
+              "payload sized to sizeof(Header) + 2 + N + N mod 2 + 2 + V on every path (%d)" % len(sizes),
+              "InterfacePayload::setData: %s — the fields behind the ids are not where the format (and every reader) looks for them" % bad)
+    return 1
